@@ -287,6 +287,7 @@ pub fn run(unit: &str, tier: Tier, cx: &ShardCtx) -> UnitResult {
         "graphemes" => run_graphemes(unit, if q { 4 } else { 6 }, cx),
         "iterinput" => run_iter(unit, if q { 4 } else { 5 }, 4, cx, None),
         "cursor-machine" => cursor::run(unit, if q { 4 } else { 5 }, cx),
+        "pull-budgets" => pulls::run(unit, if q { &[0, 1, 2, 8, 16, 32, 64, 128] } else { &[0, 1, 2, 8, 16, 32, 64, 128, 256, 512, 1024, 2048] }, cx),
         _ => panic!("unknown unit {unit}"),
     }
 }
@@ -308,3 +309,131 @@ pub fn replay(v: &Value) -> Result<Option<String>, String> {
 
 #[allow(dead_code)]
 fn _unused(_: ObsErr) {}
+
+// =================================================================================================
+// C20: pull budgets — the number of token pulls of the linear grammar families grows linearly
+// =================================================================================================
+
+pub mod pulls {
+    use super::*;
+    use chumsky::input::{ExactSizeInput, Input, ValueInput};
+    use chumsky::pratt::*;
+    use std::cell::Cell;
+
+    thread_local! {
+        static PULLS: Cell<u64> = const { Cell::new(0) };
+    }
+
+    /// `&[char]` that counts every token pull
+    #[derive(Clone, Copy)]
+    pub struct CountIn<'a>(pub &'a [char]);
+    impl<'a> Input<'a> for CountIn<'a> {
+        type Cursor = usize;
+        type Span = SimpleSpan<usize>;
+        type Token = char;
+        type MaybeToken = &'a char;
+        type Cache = &'a [char];
+        fn begin(self) -> (usize, &'a [char]) {
+            (0, self.0)
+        }
+        fn cursor_location(c: &usize) -> usize {
+            *c
+        }
+        unsafe fn next_maybe(this: &mut &'a [char], cursor: &mut usize) -> Option<&'a char> {
+            PULLS.with(|p| p.set(p.get() + 1));
+            let t = this.get(*cursor)?;
+            *cursor += 1;
+            Some(t)
+        }
+        unsafe fn span(_: &mut &'a [char], range: std::ops::Range<&usize>) -> SimpleSpan<usize> {
+            (*range.start..*range.end).into()
+        }
+    }
+    impl<'a> ValueInput<'a> for CountIn<'a> {
+        unsafe fn next(this: &mut &'a [char], cursor: &mut usize) -> Option<char> {
+            <Self as Input>::next_maybe(this, cursor).copied()
+        }
+    }
+    impl<'a> ExactSizeInput<'a> for CountIn<'a> {
+        unsafe fn span_from(this: &mut &'a [char], range: std::ops::RangeFrom<&usize>) -> SimpleSpan<usize> {
+            (*range.start..this.len()).into()
+        }
+    }
+
+    type E<'a> = extra::Err<Rich<'a, char>>;
+    type BPc<'a> = Boxed<'a, 'a, CountIn<'a>, usize, E<'a>>;
+
+    /// (name, parser, input generator by size n)
+    pub fn families<'a>() -> Vec<(&'static str, BPc<'a>, fn(usize) -> String)> {
+        vec![
+            ("a* (repeated, count)", just('a').repeated().count().boxed(), |n| "a".repeat(n)),
+            ("a* collect then b? (repeated + option)", just('a').repeated().collect::<Vec<_>>().then(just('b').or_not()).map(|(v, _)| v.len()).boxed(), |n| "a".repeat(n)),
+            ("(ab|a)* (choice with a partially matching first alternative)", just('a').then(just('b')).ignored().or(just('a').ignored()).repeated().count().boxed(), |n| "a".repeat(n)),
+            ("a (',' a)* allow_trailing (separated_by)", just('a').separated_by(just(',')).allow_trailing().count().boxed(), |n| "a,".repeat(n)),
+            ("a (',' a)* with recovery per item", just('a').recover_with(via_parser(none_of(",").map(|_| 'a'))).separated_by(just(',')).count().boxed(), |n| "b,".repeat(n) + "a"),
+            ("(a (',' a)*)? foldl", just('a').to(0usize).foldl(just(',').ignore_then(just('a')).repeated(), |acc, _| acc + 1).boxed(), |n| "a".to_string() + &",a".repeat(n)),
+            ("pratt a (+ a)* left assoc", just('a').to(1usize).pratt((infix(left(1), just('+'), |l: usize, _, r: usize, _| l + r),)).boxed(), |n| "a".to_string() + &"+a".repeat(n)),
+            ("pratt a (^ a)* right assoc with a prefix", just('a').to(1usize).pratt((infix(right(2), just('^'), |l: usize, _, r: usize, _| l + r), prefix(1, just('-'), |_, r: usize, _| r))).boxed(), |n| "-a".to_string() + &"^a".repeat(n)),
+            ("recursive brackets", recursive(|r| r.delimited_by(just('('), just(')')).map(|d: usize| d + 1).or(just('a').to(0usize))).boxed(), |n| "(".repeat(n) + "a" + &")".repeat(n)),
+            ("memoized alternatives under repetition", just('a').then(just('b')).ignored().memoized().or(just('a').ignored().memoized()).repeated().count().boxed(), |n| "a".repeat(n)),
+            ("skip_until recovery", just('b').to(0usize).recover_with(skip_until(any().ignored(), just(';').ignored(), || 1usize)).boxed(), |n| "a".repeat(n) + ";"),
+        ]
+    }
+
+    pub fn run(unit: &str, sizes: &[usize], cx: &ShardCtx) -> UnitResult {
+        let mut r = UnitResult { name: unit.to_string(), exhaustive: true, ..Default::default() };
+        let fams = families();
+        let nf = fams.len();
+        r.desc = format!("pull budgets: {nf} linear grammar families (repetition, separators, choice with partial matches, recovery, folds, Pratt left/right/prefix, recursion, memoization) on their own inputs of sizes {:?} through a pull-counting Input, parse and check: pulls at most 24(n+1) and at most ~2.6x when the input doubles", sizes);
+        if cx.shard != 0 {
+            return r;
+        }
+        for (name, _, gen) in &fams {
+            // inputs first, then the parser that reads them
+            let bufs: Vec<Vec<char>> = sizes.iter().map(|n| gen(*n).chars().collect()).collect();
+            let fams2 = families();
+            let p = &fams2.iter().find(|(n, _, _)| n == name).unwrap().1;
+            let mut counts: Vec<(usize, u64)> = vec![];
+            for b in &bufs {
+                r.cases += 1;
+                r.validated += 1;
+                PULLS.with(|p| p.set(0));
+                let res = catch_unwind(AssertUnwindSafe(|| {
+                    let a = p.parse(CountIn(&b[..])).has_output();
+                    let c = p.check(CountIn(&b[..])).has_output();
+                    (a, c)
+                }));
+                let pulls = PULLS.with(|p| p.get());
+                r.states += b.len() as u64 + 1;
+                r.transitions += pulls;
+                match res {
+                    Err(e) => mism(&mut r, "pulls", unit, name.to_string(), &format!("n={}", b.len()), format!("panic: {}", e1::panic_msg(e))),
+                    Ok((a, c)) => {
+                        if !a || !c {
+                            mism(&mut r, "pulls", unit, name.to_string(), &format!("n={}", b.len()), "the family's own well-formed input was rejected".into());
+                        }
+                    }
+                }
+                counts.push((b.len(), pulls));
+            }
+            // linear growth: doubling the input at most (a bit more than) doubles the pulls, and the
+            // absolute budget is c * (n + 1)
+            for w in counts.windows(2) {
+                let ((n0, p0), (n1, p1)) = (w[0], w[1]);
+                if n0 >= 8 && n1 >= 2 * n0 - 2 && (p1 as f64) > 2.6 * (p0 as f64) + 64.0 {
+                    mism(&mut r, "pulls", unit, name.to_string(), &format!("n={n0}->{n1}"), format!("token pulls grow faster than linearly: {p0} pulls for {n0} tokens, {p1} for {n1}"));
+                }
+            }
+            if let Some((n, p)) = counts.last() {
+                if *p > 24 * (*n as u64 + 1) {
+                    mism(&mut r, "pulls", unit, name.to_string(), &format!("n={n}"), format!("{p} token pulls for {n} tokens exceeds the budget 24(n+1)"));
+                }
+            }
+            if r.samples.len() < 4 {
+                r.samples.push(format!("{name}: pulls by input length {:?}", counts));
+            }
+        }
+        r.distinct_outcomes = nf as u64 * sizes.len() as u64;
+        r
+    }
+}
